@@ -15,6 +15,7 @@ from vlib import gen, genconf, observe, pdbio, common
 from vlib.pdbio import Atom
 
 PROPERTY = "C08"
+REDUCE_KEYS = ["pdb"]
 LEVEL = "exploration"
 RULE = ("multi-conformation inputs built from generated structures: 2-4 MODELs (jittered coordinates, point mutants, "
         "missing atoms or residues in later models, identical copies, MODEL numbers starting at 0/1/5) and "
